@@ -399,7 +399,7 @@ func (r *Runner) classifyPanic(s *Session, k int, op OpSpec, msg string) (string
 		// the canonical-number rewrite loop walks into the removed header
 		for _, n := range op.Nodes {
 			p := t.Spec[n].Parent
-			if n == 0 || hasHdr(n) && n != op.Nodes[len(op.Nodes)-1] || !hasTd(p) {
+			if n == 0 || !hasTd(p) {
 				continue
 			}
 			for a := p; a != 0; a = t.Spec[a].Parent {
